@@ -420,6 +420,56 @@ def check_special(col):
                               f"[{name}/{fname}] sequence differs: {[x[0] for x in signature(nf)]} vs {[x[0] for x in base]}"[:500], bucket=f"special|{fname}")
 
 
+def check_late_definition(col):
+    """a reference is asked for before the class it names exists (NameError, handled by the caller), the class is declared,
+    the same reference again: the sequence of the evaluated type, like in a module where nothing ever failed"""
+    from harness import late
+    forms = {"string:Item": lambda m: f"{m.__name__}.Item", "forwardref:Item": lambda m: FR("Item", module=m.__name__),
+             "string:Outer.Inner": lambda m: f"{m.__name__}.Outer.Inner", "forwardref:Outer.Inner": lambda m: FR("Outer.Inner", module=m.__name__),
+             "string:Order": lambda m: f"{m.__name__}.Order", "alias:ItemList": lambda m: m.ItemList, "lazy:LazyItems": lambda m: m.LazyItems,
+             "class:Order": lambda m: m.Order}
+    evaluated = {"string:Item": lambda m: m.Item, "forwardref:Item": lambda m: m.Item, "string:Outer.Inner": lambda m: m.Outer.Inner,
+                 "forwardref:Outer.Inner": lambda m: m.Outer.Inner, "string:Order": lambda m: m.Order}
+    for name, mk in forms.items():
+        for n_early in (1, 2):
+            tl.clear_all()
+            tp_ = late.TwoPhase("c09")
+            try:
+                early = [tl.call(graph.static_order, mk(tp_.mod))[0] for _ in range(n_early)]   # phase 1: fails, handled
+                tp_.declare()
+                if "ok" in early:
+                    # an answer was given (and memoised) while the annotations below the root could not be resolved yet: the root
+                    # was no valid annotation at that time - outside what the statement is about
+                    col.label("late-definition:first-attempt-answered")
+                    continue
+                col.ev()
+                col.nt(f"late|{name}|{n_early}")
+                col.label("late-definition")
+                case = {"late": name, "early_calls": n_early}
+                try:
+                    with core.watchdog(20):
+                        k, nodes = tl.call(graph.static_order, mk(tp_.mod))
+                except core.WatchdogTimeout:
+                    col.violation("1-terminates", case, f"static_order({name}) after the class was declared did not return", bucket="late-definition")
+                    continue
+                if k == "exc":
+                    col.violation("1-terminates", case, f"static_order({name}) still raises {tl.exc_name(nodes)} after the class was declared: {nodes}"[:400],
+                                  bucket="late-definition|" + exc_bucket(nodes))
+                    continue
+                if name in evaluated:
+                    T = evaluated[name](tp_.mod)
+                    tl.clear_all()
+                    kt, want = tl.call(graph.static_order, T)
+                    if kt == "ok" and signature(nodes) != signature(want):
+                        col.violation("7-input-forms-agree", case, f"[{name}] after a failed first attempt: {[x[0] for x in signature(nodes)]} vs the class's {[x[0] for x in signature(want)]}"[:500],
+                                      bucket="late-definition")
+                else:
+                    T = mk(tp_.mod)
+                    check_nodes(nodes, T, col, case, f"late:{name}")
+            finally:
+                tp_.close()
+
+
 # ---- runner interface -------------------------------------------------------------------------------------
 
 def topo_jobs(tier):
@@ -437,6 +487,7 @@ def plan(tier, seed):
     jobs = topo_jobs(tier)
     shards = [{"kind": "topo", "mod": 12, "rem": i} for i in range(12)]
     shards.append({"kind": "special"})
+    shards.append({"kind": "late-definition"})
     n = 150 if tier == "quick" else 3000
     for k in range(3):
         shards.append({"kind": "random", "seed": seed * 1000 + k, "n": n, "depth": 4 if tier == "quick" else 5})
@@ -509,6 +560,9 @@ def check_reload(t, col, n):
 
 
 def run_shard(shard, col):
+    if shard["kind"] == "late-definition":
+        check_late_definition(col)
+        return
     if shard["kind"] == "special":
         check_special(col)
         return
@@ -559,5 +613,8 @@ def run_shard(shard, col):
 def replay(clause, case, col):
     if "special" in case:
         check_special(col)
+        return
+    if "late" in case:
+        check_late_definition(col)
         return
     progs.replay_program(case, col, lambda p: check_program(p.spec, p.mat, col, case, nontrivial=True))
